@@ -268,3 +268,6 @@ Proof.
   intros Hc (Na & Ea) (Nb & Eb). split; [apply loop_step_class; assumption|].
   intros H. destruct (Hc H) as [H0|H1]; [apply loop_step_err_l, Ea, H0 | apply loop_step_err_r; [exact Na | apply Eb, H1]].
 Qed.
+
+Lemma u32_at_in e f p : p + 4 <= lenN f -> exists v, u32_at e f p = Some v.
+Proof. intros H. unfold u32_at. destruct (sliceN_Some p 4 f H) as (s & ->). eauto. Qed.
